@@ -38,13 +38,13 @@ def main():
             "guard": "verif",
             "enable": "go build -tags verif (the probe in /verif/harness is built with it against /repo via a replace directive)",
             "baseline_off_cmd": "cd /repo && GOFLAGS=-mod=mod go test -vet=off -count=1 -timeout 25m ./...",
-            "source_commits": [],
+            "source_commits": ["65a255f verif hooks: canonical dumps of tokens, names, forms and types (build tag verif, add-only)"],
             "add_only": True,
         },
         "engines": [{"name": "coq-model", "path": "/verif/coq", "serves_properties": sorted(CLAIMED),
                      "kind_free_text": "Coq 8.16 model + theorems; translators (harness probe) regenerate data-like parts from /repo; extracted OCaml model vs Go probe correspondence"}],
         "checks": checks,
-        "notes": "All checks share bin/check and a locked, incremental build prelude (translators, coq make, extraction, Go probe). See DESIGN.md.",
+        "notes": "All checks share bin/check and a locked, incremental build prelude (translators, coq make, extraction, Go probe). Genuine defects of the pinned tree were repaired by `fix:` commits in /repo (list and known findings: known_findings.jsonl, DESIGN.md section 7). VERIF_REPO can point the whole machinery at another checkout (used only to evaluate seeded changes in isolation). See DESIGN.md.",
         "not_applicable": na,
     }
     with open(os.path.join(V, "MANIFEST.json"), "w") as f:
